@@ -110,6 +110,7 @@ func newCert(cn string, key *rsa.PrivateKey, nb, na time.Time) *KeyPair {
 
 type World struct {
 	IdP1, IdP2, Attacker, SPEnc, SPSign, Other *KeyPair
+	IdPOld *KeyPair // a store member whose certificate expired before the fake clock (key roll-over leftovers)
 	// a certificate that carries IdP1's name/cert bytes but whose private key is the attacker's cannot
 	// exist (the cert binds the public key); "trusted cert + foreign key" = sign with the attacker key and
 	// embed IdP1's certificate in KeyInfo.
@@ -127,6 +128,7 @@ func getWorld() *World {
 			SPEnc:    newCert("sp-enc", rsaKey("spenc"), certNB, certNA),
 			SPSign:   newCert("sp-sign", rsaKey("spsign"), certNB, certNA),
 			Other:    newCert("other", rsaKey("other"), certNB, certNA),
+			IdPOld:   newCert("idp-old", rsaKey("idpold"), certNB.AddDate(-2, 0, 0), certNB.AddDate(-1, 0, 0)),
 		}
 	})
 	return world
